@@ -569,7 +569,31 @@ func enumC20Att(yield func(C20Att) bool) {
 
 const streamBudget = 1 << 20
 
+// checkC20Att judges one attachment size. The allocation counter is process-wide and the runtime books small
+// allocations when a span is refilled, not when they happen, so one measurement can include bytes that other
+// goroutines (or earlier calls) requested: such noise only ever adds. A measurement over budget is therefore taken
+// again, up to three times in all; code that buffers the attachment exceeds the budget every time.
 func checkC20Att(c C20Att, st *stats.Collector) error {
+	var err error
+	for attempt := 0; attempt < 3; attempt++ {
+		err = checkC20AttOnce(c, st)
+		if k := kindOfFailure(err); k != "writer-memory" && k != "reader-memory" {
+			return err
+		}
+		st.Note("allocation-measurement-repeated")
+		runtime.GC()
+	}
+	return err
+}
+
+func kindOfFailure(err error) string {
+	if f, ok := err.(*pk.Failure); ok {
+		return f.Kind
+	}
+	return ""
+}
+
+func checkC20AttOnce(c C20Att, st *stats.Collector) error {
 	// writer side
 	sink := &hashSink{h: sha256.New()}
 	mw, err := mcap.NewWriter(sink, &mcap.WriterOptions{Chunked: c.Chunked, ChunkSize: 1 << 20, IncludeCRC: c.CRC})
